@@ -90,6 +90,10 @@ theorem inv_step (s : Reg) (op : Op) (h : InvR s) : InvR (step repaired s op).1 
     rcases addControl_cases s n ns ls with e | ⟨us, e⟩ <;> simp only [step, e]
     · exact h
     · exact invR_congr s _ rfl rfl rfl rfl rfl rfl rfl h
+  | updateControl n ns ls =>
+    rcases updateControl_cases s n ns ls with e | ⟨us, e⟩ <;> simp only [step, e]
+    · exact h
+    · exact invR_congr s _ rfl rfl rfl rfl rfl rfl rfl h
   | removeNode n wc f =>
     rcases removeNode_cases s n wc f with ⟨_, e⟩ | e | ⟨i, hi, hu, e⟩ <;> simp only [step, e]
     · exact h
@@ -173,6 +177,7 @@ theorem not_ok_unchanged (s : Reg) (op : Op) (h : (step repaired s op).2 ≠ .ok
   | addCurve n t => simp [step, addCurve_eq] at h
   | addSource n nd p => rcases addSource_cases s n nd p with e | ⟨_, e⟩ <;> simp_all [step]
   | addControl n ns ls => rcases addControl_cases s n ns ls with e | ⟨_, e⟩ <;> simp_all [step]
+  | updateControl n ns ls => rcases updateControl_cases s n ns ls with e | ⟨_, e⟩ <;> simp_all [step]
   | removeNode n wc f => rcases removeNode_cases s n wc f with ⟨_, e⟩ | e | ⟨_, _, _, e⟩ <;> simp_all [step]
   | removeLink n wc f => rcases removeLink_cases s n wc f with ⟨_, e⟩ | e | ⟨_, _, e⟩ <;> simp_all [step]
   | removePattern n => rcases removePattern_cases s n with e | ⟨_, e⟩ <;> simp_all [step]
@@ -251,6 +256,51 @@ theorem remove_curve_in_use_refused (s : Reg) (c : Name) (h : Inv s)
     · exact hn _ ((Clause.usageCurveNodes_iff s).1 h.usageCurveNodes k i hk h1 c h2)
     · exact hn _ (((Clause.usageCurveLinks_iff s).1 h.usageCurveLinks k i hk).1 h1 c h2)
     · exact hn _ (((Clause.usageCurveLinks_iff s).1 h.usageCurveLinks k i hk).2 h1 c h2)
+
+/-! ### controls: an element that a control requires is in use; `with_control` removes exactly the controls that require it -/
+
+theorem delLinkR_controls (s : Reg) (key : Name) (i : LinkInfo) : (delLinkR s key i).controls = s.controls := by
+  unfold delLinkR; simp only [typedDiscardAll_controls, removeUsageO_controls, removeUsageT_controls]
+
+theorem delNodeR_controls (s : Reg) (key : Name) (i : NodeInfo) : (delNodeR s key i).controls = s.controls := by
+  unfold delNodeR; simp only [typedDiscardAll_controls, removeUsageO_controls, popUsageKey_controls]
+
+/-- a link that some control requires is not removed by a plain `remove_link` -/
+theorem remove_link_required_refused (s : Reg) (n : Name) (i : LinkInfo) (hi : AL.get? s.links n = some i)
+    (hr : requiredBy s i.uid = true) : removeLink repaired s n false false = (s, .refused) := by
+  unfold removeLink; simp [hi, hr]
+
+theorem remove_node_required_refused (s : Reg) (n : Name) (i : NodeInfo) (hi : AL.get? s.nodes n = some i)
+    (hr : requiredBy s i.uid = true) : removeNode repaired s n false false = (s, .refused) := by
+  unfold removeNode; simp [hi, hr]
+
+/-- `remove_link(name, with_control=True)` removes exactly the controls that require the link, no other -/
+theorem remove_link_with_control_exact (s : Reg) (n : Name) (i : LinkInfo) (hi : AL.get? s.links n = some i) :
+    (removeLink repaired s n true false).2 = .ok ∧
+    (removeLink repaired s n true false).1.controls = s.controls.filter (fun c => !(c.2.contains i.uid)) := by
+  rcases removeLink_cases s n true false with ⟨hn, _⟩ | e | ⟨j, hj, e⟩
+  · rw [hi] at hn; cases hn
+  · exfalso; unfold removeLink at e; simp [hi] at e
+  · rw [hi] at hj; cases hj
+    rw [e]; simp [dropControls, delLinkR_controls]
+
+/-- a plain successful `remove_link` leaves the control list alone -/
+theorem remove_link_keeps_controls (s : Reg) (n : Name) (f : Bool) (h : (removeLink repaired s n false f).2 = .ok) :
+    (removeLink repaired s n false f).1.controls = s.controls := by
+  rcases removeLink_cases s n false f with ⟨_, e⟩ | e | ⟨j, hj, e⟩
+  · rw [e] at h; cases h
+  · rw [e] at h; cases h
+  · rw [e]; simp [delLinkR_controls]
+
+theorem remove_node_with_control_exact (s : Reg) (n : Name) (wc f : Bool) (h : (removeNode repaired s n wc f).2 = .ok) :
+    ∃ i, AL.get? s.nodes n = some i ∧
+      (removeNode repaired s n wc f).1.controls =
+        if (!f && wc) = true then s.controls.filter (fun c => !(c.2.contains i.uid)) else s.controls := by
+  rcases removeNode_cases s n wc f with ⟨_, e⟩ | e | ⟨j, hj, _, e⟩
+  · rw [e] at h; cases h
+  · rw [e] at h; cases h
+  · refine ⟨j, hj, ?_⟩
+    rw [e]; split <;> simp [dropControls, delNodeR_controls]
 
 /-! ### the full statement, and the code as it was
 
